@@ -130,8 +130,14 @@ def gen_probes(tier):
                     probes.append(dict(base, id=pid, form=name, expect="accept", text=text))
                     pid += 1
                 # implicit construction as a statement: compiles iff model
-                probes.append(dict(base, id=pid, form="copy_init", expect="accept" if M else "reject", text=f"void vf_p{pid}({q1} a) {{ {q2} b = a; (void)b; }}"))
+                probes.append(dict(base, id=pid, form="copy_init", expect="accept" if M else "reject", dedup_key=(r1, r2, rs), text=f"void vf_p{pid}({q1} a) {{ {q2} b = a; (void)b; }}"))
                 pid += 1
+                # assignment and compound assignment from the other type go through the same implicit conversion (one statement per
+                # probe: a rejected `t = a` must not hide an accepted `t += a`)
+                for fname, body in (("assign", "t = a;"), ("plus_assign", "t += a;"), ("minus_assign", "t -= a;")):
+                    if tier != "quick" or rnd.random() < 0.35 or ratio == Fraction(1):
+                        probes.append(dict(base, id=pid, form=fname, expect="accept" if M else "reject", dedup_key=(r1, r2, rs), text=f"void vf_p{pid}({q2} t, {q1} a) {{ {body} }}"))
+                        pid += 1
                 # unit-only .as(u) keeps the rep: policy for (r1 -> r1)
                 M_as = permitted(r1, r1, ratio)
                 if (r1, rs) not in seen_as and not seen_as.add((r1, rs)):
@@ -268,8 +274,8 @@ def run(chk, which="C06"):
     cfgs = [(core.GXX, "c++14"), (core.CLANGXX, "c++17"), (core.GXX, "c++20")] if tier == "quick" else core.CONFIGS
     by = {p["id"]: p for p in probes}
 
-    groups = {"traits": [p for p in probes if p["form"] not in ("as_unit_only", "copy_init") and not p["form"].startswith("mixed_")],
-              "copy": [p for p in probes if p["form"] == "copy_init"],
+    groups = {"traits": [p for p in probes if p["form"] not in ("as_unit_only", "copy_init", "assign", "plus_assign", "minus_assign") and not p["form"].startswith("mixed_")],
+              "copy": [p for p in probes if p["form"] in ("copy_init", "assign", "plus_assign", "minus_assign")],
               "as": [p for p in probes if p["form"] == "as_unit_only"],
               "mixed": [p for p in probes if p["form"].startswith("mixed_")]}
 
@@ -284,6 +290,7 @@ def run(chk, which="C06"):
     results = core.pmap(do_cfg, [(c, g) for c in cfgs for g in groups], workers=4)
     nprobe = 0
     distinct = set()
+    nine_forms = set()
     for cfg, res, pr in results:
         cs = f"{cfg[0]}:{cfg[1]}"
         for pid, r in res.items():
@@ -298,15 +305,16 @@ def run(chk, which="C06"):
                 # One defect, many spellings: when the rep that has to hold the conversion factor is floating and the factor exceeds
                 # its largest finite value, the policy (rightly, per the statement) says "permitted" but the conversion itself cannot
                 # compile; g++ even reports it while resolving overloads in an unevaluated operand.  The key names the rep that must
-                # hold the factor, the factor and the form - not the other rep or the configuration, which play no part.
+                # hold the factor and the factor - not the form (every spelling of the conversion fails alike), the other rep or the configuration.
                 frep = unrepresentable_float_factor(p)
                 if frep and p["form"] != "is_convertible" and p["form"] != "is_constructible" and p["form"] != "common_type":
-                    chk.violation(f'C06|unrepresentable_float_factor|form={p["form"]}|rep={frep}|ratio={p["ratio"]}',
+                    nine_forms.add(p["form"])
+                    chk.violation(f'C06|unrepresentable_float_factor|rep={frep}|ratio={p["ratio"]}',
                                   msg=f'{cs}: {p["form"]} for Quantity<U*{p["ratio"]},{p["r1"]}> -> Quantity<U,{p["r2"]}>: the policy permits it (floating rep) but the conversion factor is not representable in {frep}, so the program is ill-formed: {msg[:160]}')
                     continue
                 wrong_answer = "static assertion failed" in msg and "vf" in msg or "static_assert failed" in msg and "vf" in msg
                 what = "answers differently from the documented predicate" if wrong_answer else "is not total: asking is a hard error"
-                if p["form"] in ("copy_init", "as_unit_only") or p["form"].startswith("mixed_"):
+                if p["form"] in ("copy_init", "as_unit_only", "assign", "plus_assign", "minus_assign") or p["form"].startswith("mixed_"):
                     what = "is rejected although the documented predicate permits it"
                 chk.violation(f"C06|{tag}|cfg={cs}", msg=f'{cs}: {p["form"]} for Quantity<U*{p["ratio"]},{p["r1"]}> -> Quantity<U,{p["r2"]}> (model: {p["model"]}) {what}: {msg[:220]}')
             elif p["expect"] == "reject" and not r["rejected"]:
@@ -320,7 +328,7 @@ def run(chk, which="C06"):
                        "copy-initialisation, unit-only .as/.in and mixed ==,<,+ as accept/reject probes; every permitted integral conversion is executed on all x in [-2147,2147] that R1 and R2 can hold; "
                        "distinct_nontrivial = distinct (R1, R2, ratio, form)")
     chk.notes.update({"probes": nprobe, "configurations": [f"{c} {s}" for c, s in cfgs], "value_cases": ncases, "value_evaluations": evals,
-                      "isolated_rechecks": sum(pr.n_isolated for _, _, pr in results),
+                      "isolated_rechecks": sum(pr.n_isolated for _, _, pr in results), "forms_hit_by_unrepresentable_float_factor": sorted(nine_forms),
                       "unverified_batch_verdicts": sum(pr.n_unverified for _, _, pr in results)})
     if sum(pr.n_unverified for _, _, pr in results):
         chk.fail_inconclusive("more disagreements than could be re-checked in isolation")
